@@ -24,7 +24,7 @@ BUDGETS = {'C14': (45, 900, 20)}
 LEVELS = {'C14': 'exploration'}
 PROBES = {'C14': ['reopen', 'add_duplicate_existing', 'add_duplicate_in_batch', 'add_heterogeneous_batch', 'check_out_hit',
                   'check_out_notfound', 'check_out_level', 'check_in_increment', 'check_in_missing_url', 'release_with_in_progress',
-                  'remove_existing', 'readd_after_remove', 'visits', 'wrapper', 'unparseable_url', 'non_ascii_url', 'update_one', 'check_in_held_url', 'check_in_after_remove_and_readd']}
+                  'remove_existing', 'readd_after_remove', 'visits', 'wrapper', 'unparseable_url', 'non_ascii_url', 'update_one', 'check_in_held_url', 'check_in_after_remove_and_readd', 'check_out_repeated_after_notfound']}
 INFO = {'C14': {
     'rule': 'history = 1..40 operations drawn from add_many (batches with internal duplicates, with/without properties/data, '
             'odd URL strings), check_out(status[,level]), check_in, update_one, release, remove_many, add_visits/get_revisit_id, '
@@ -113,6 +113,8 @@ def run(tape, prop, tier):
     model = ModelTable()
     history = []
     removed = set()
+    follow = []
+    last_notfound = None
     held = []
     kinds = []
     n = tape.between(1, 40 if tier == 'thorough' else 25, 'nops')
@@ -121,6 +123,13 @@ def run(tape, prop, tier):
         for step in range(n):
             op = tape.weighted([(8, 'add'), (6, 'check_out'), (6, 'check_in'), (2, 'update'), (2, 'release'), (2, 'remove'),
                                 (2, 'visits'), (3, 'query'), (3, 'reopen')], 'op')
+            # a check-out that found nothing is often followed by the operation that makes such rows exist again, and then by the
+            # same check-out (anything remembered about "nothing there" must be forgotten in between)
+            if follow:
+                op = follow.pop(0)
+            elif last_notfound is not None and tape.chance(1, 2, 'op.after_notfound'):
+                follow = ['release' if tape.chance(2, 3, 'op.after_notfound.k') else 'add', 'check_out_again']
+                op = follow.pop(0)
             kinds.append(op)
             desc = None
             try:
@@ -172,12 +181,16 @@ def run(tape, prop, tier):
                         if sorted(got) != sorted(want):
                             r.violate(P, 'add-result', 'new-urls-differ' + (':heterogeneous-batch' if len(het) > 1 else ''),
                                       'step %d add_many%r reported new %r, model %r' % (step, [(u, p) for u, p, d in mbatch], sorted(got), sorted(want)))
-                elif op == 'check_out':
+                elif op in ('check_out', 'check_out_again'):
                     st = tape.choice(('todo', 'error', 'todo', 'done', 'in_progress', 'skipped'), 'co.status')
                     level = None
                     if tape.chance(1, 4, 'co.level'):
                         level = tape.draw(5, 'co.level.v')
                         r.probes['check_out_level'] += 1
+                    if op == 'check_out_again' and last_notfound is not None:
+                        st, level = last_notfound
+                        r.probes['check_out_repeated_after_notfound'] += 1
+                    last_notfound = None
                     desc = ('check_out', st, level)
                     strict = model.candidates(st, level, inclusive=False)
                     loose = model.candidates(st, level, inclusive=True)
@@ -185,6 +198,7 @@ def run(tape, prop, tier):
                         rec = table.check_out(Status(st), level) if level is not None else table.check_out(Status(st))
                     except NotFound:
                         r.probes['check_out_notfound'] += 1
+                        last_notfound = (st, level)
                         if strict:
                             r.violate(P, 'check-out', 'notfound-although-candidates', 'step %d check_out(%s,%r): NotFound but model has %r' % (step, st, level, strict[:5]))
                     else:
